@@ -1295,7 +1295,9 @@ DOC_URI_IGNORE = ("www", "xsd", "wsdl")
 def ref_case(case, s):
     if case == "originalCase":
         kept = "".join(c for c in re.sub(r"\W", "", s) if ("_" + c).isidentifier())
-        return re.sub(r"^[^a-zA-Z_]+", "", kept)
+        # repair c07e-01: a leading run of two or more underscores is collapsed to one (a name that starts
+        # with two underscores is mangled inside a class body)
+        return re.sub(r"^__+", "_", re.sub(r"^[^a-zA-Z_]+", "", kept))
     return own_case(case, s)
 
 
@@ -1429,6 +1431,10 @@ def oracle_ident(a):
         if not importable_name(p):
             why = "a Python keyword" if keyword.iskeyword(p) else "not an identifier"
             return f"{what}({s!r}) = {out!r}: {p!r} is {why}"
+    # names written inside a class body (classes, fields, enum members): a name that starts with two
+    # underscores and does not end with two is rewritten by the compiler (`T.__a` -> `T._T__a`)
+    if a.get("kind") in (None, "class", "field", "constant") and out.startswith("__") and not out.endswith("__"):
+        return f"{what}({s!r}) = {out!r}: name-mangled inside a class body"
     return None
 
 
@@ -2200,8 +2206,9 @@ def covered_pipeline(a, msg, msgs=None):
     names with different slugs. `msgs` = all failures of the run: a later failure that merely restates
     such a duplicate in the interpreter's / binding layer's words (a compound field whose choices name
     the duplicated class, an error that names the shadowed class) is the same failure.
-    C07-field-named-like-inner-class, C07-dunder-inner-class-mangled: one failure kind each, and the
-    documented names of the elements involved must be the ones of the message."""
+    C07-field-named-like-inner-class: one failure kind, and the documented names of the elements involved
+    must be the ones of the message. (C07-dunder-inner-class-mangled is repaired, c07e-01: an
+    AttributeError for a mangled `T.__a` is a violation again.)"""
     m = re.search(r"Compound field contains ambiguous types; choice types (\[.*\])$", msg)
     if m:
         # two choices of one compound field have the same type. The same failure as a duplicate class
@@ -2235,16 +2242,6 @@ def covered_pipeline(a, msg, msgs=None):
         if (any(ref_safe_name(x, "value", fcase) == fname for x in var(local))
                 and any(ref_safe_name(y, "type", ccase) == fname for u in sources for y in var(u))):
             return "C07-field-named-like-inner-class"
-        return None
-    m = re.search(r"build_recursive raised AttributeError: type object '(\w+)' has no attribute '(__\w*?[^_\W]_?)'$", msg)
-    if m:
-        # C07-dunder-inner-class-mangled: only originalCase keeps leading underscores; the documented class
-        # name of some element of the source is that very `__name` (not a `__dunder__`)
-        ccase = a.get("opts", {}).get("class_case", "pascalCase")
-        names = _class_source_names(a)
-        cands = names + [f"{n}_Inner" for n in names] + [f"{n}_{k}" for n in names for k in range(1, 10)]
-        if ccase == "originalCase" and any(ref_safe_name(n, "type", ccase) == m.group(2) for n in cands):
-            return "C07-dunder-inner-class-mangled"
         return None
     m = re.match(r"(?:generation raised \w+: |class [\w.]+: XmlContext\.build_recursive raised |class [\w.]+ cannot be instantiated: |enum [\w.]+ cannot be listed: )(.*)$", msg, re.S)
     if m:
@@ -2343,9 +2340,13 @@ def gen_pipeline(rng, tier):
     # anonymous types inside anonymous types: inner classes of inner classes (T.A.B in the type hints)
     yield xsd([ty("t", [["a", None, [["b", None, ["c", ["d", "t"]]], "e"]]])], [{"name": "r", "type": "t"}])
     yield xsd([{**ty("t", [["a", None, [["A", None, ["c"]], ["a_", None, ["c"]]]], "s"]), "model": "choice"}], [{"name": "r", "type": "t"}], compound=True)
-    # an inner class whose name keeps two leading underscores (class names in originalCase): Python mangles
-    # `t.__a` inside the class body (C07-dunder-inner-class-mangled)
+    # an inner class whose name would keep two leading underscores (class names in originalCase): Python
+    # mangles `t.__a` inside the class body (was C07-dunder-inner-class-mangled; repaired by c07e-01, a
+    # regression is a violation); same for fields, and for the `_` / `_` pair that is renamed `__Inner`
     yield xsd([ty("t", [["__a", None, ["p"]], "b"])], [{"name": "r", "type": "t"}], class_case="originalCase")
+    yield xsd([ty("_", [["_", None, ["p"]]])], [{"name": "r", "type": "_"}], class_case="originalCase")
+    yield xsd([ty("t", ["__a", "_a", "b"])], [{"name": "r", "type": "t"}], field_case="originalCase")
+    yield xsd([ty("__t", ["a"]), ty("_t", ["a"])], [{"name": "r", "type": "__t"}, {"name": "s", "type": "_t"}], class_case="originalCase")
     yield xsd([ty("None"), ty("NoneType")], [{"name": "r", "type": "None"}])
     yield xsd([ty("a"), ty("A")], [{"name": "a", "type": "A"}])
     yield xsd(enums=[{"name": "e", "values": ["1", "value_1", "a", "A"]}])
@@ -2611,20 +2612,8 @@ def _f_field_like_inner():
     return bool(hit) and covered_pipeline(a, hit[0], msgs) == "C07-field-named-like-inner-class", (hit or msgs or ["generation, import and binding succeed"])[0][:200]
 
 
-def _f_dunder_inner():
-    """complexType t with an element `__a` of an anonymous type, class names in originalCase: the inner
-    class is called `__a`; inside the body of class t Python mangles `t.__a` and the type hint cannot be
-    resolved"""
-    a = {"kind": "xsd", "opts": {"class_case": "originalCase"}, "spec": {"tns": None, "enums": [], "elements": [{"name": "r", "type": "t"}],
-         "types": [{"name": "t", "elements": [["__a", None, ["p"]], "b"], "attributes": [], "abstract": False}]}}
-    msgs = pipeline_failures(a)
-    hit = [m for m in msgs if "has no attribute '__a'" in m]
-    return bool(hit) and covered_pipeline(a, hit[0], msgs) == "C07-dunder-inner-class-mangled", (hit or msgs or ["generation, import and binding succeed"])[0][:200]
-
-
 FINDINGS = {
     "C07-safe-prefix-collision": _f_prefix_collision,
-    "C07-dunder-inner-class-mangled": _f_dunder_inner,
     "C07-field-named-like-inner-class": _f_field_like_inner,
 }
 
@@ -2640,7 +2629,9 @@ LEVEL_TEXT = (
     "Filters accepts and all eight naming cases safe_name terminates (<= 11 calls), never returns a reserved word or Python keyword, "
     "always yields an identifier; slug invariance; unique_name/next_qname/next_available_name terminate with a fresh slug; "
     "rename_duplicate_attributes and RenameDuplicateClasses leave pairwise different slugs / keys for EVERY input (full strength); "
-    "counterexamples remain for safe-prefix collisions. Layout (Props/C07Layout.lean): toposort_flatten emits every item after its "
+    "no result starts with two underscores (nothing is name-mangled in a class body, repair c07e-01); a field name (snake/camel) never "
+    "equals a class name (pascal/mixedPascal/screamingSnake) for ANY two source names, with a counterexample for the other pairs of "
+    "conventions (C07-field-named-like-inner-class stays listed); counterexamples remain for safe-prefix collisions. Layout (Props/C07Layout.lean): toposort_flatten emits every item after its "
     "dependencies and fails exactly on cyclic dependencies; after a successful DependenciesResolver run every dependency of every class "
     "is defined earlier in the module or imported from the module the registry names (import sufficiency), and the resolver fails only "
     "for duplicate qnames, cycles or unprovided dependencies; DetectCircularReferences.is_circular decides reachability and always "
@@ -2654,17 +2645,28 @@ LEVEL_TEXT = (
     "JSON / XML sources under structure styles x compound/wrapper/unnest x frozen/slots x relative imports x generic collections x cases."
 )
 LEVEL_NOTE = (
-    "Partial: only the naming/renaming cores are modelled in Lean; package designation, import resolution, circular-reference "
-    "detection and rendering are covered by the spec-level end-to-end op c07.e2e only (sampling). The Jinja2 templates are replaced "
-    "by harness/standin_render.py (line-for-line transliteration, docstrings omitted); ruff formatting is skipped; WSDL/DTD sources, "
-    "docstring styles and max line length are not exercised."
+    "Partial. Modelled in Lean: the naming / renaming cores, toposort_flatten, DependenciesResolver and DetectCircularReferences; "
+    "package designation, the other handlers and rendering are covered by the spec-level end-to-end op c07.e2e only (sampling). The "
+    "Jinja2 templates are replaced by harness/standin_render.py (line-for-line transliteration, docstrings omitted); ruff formatting "
+    "is skipped; WSDL/DTD sources, docstring styles and max line length are not exercised. "
+    "THE toposort PACKAGE IS NOT INSTALLED: every `import toposort` of a check (differential ops gen.toposort / gen.resolver, the "
+    "end-to-end run) gets harness/shims/toposort, this framework's re-implementation of the package's documented algorithm; the real "
+    "package is never executed. Hence `module_imports_sufficient` and `resolver_succeeds` are theorems about `resolverProcess` = the "
+    "model of xsdata's own DependenciesResolver.process (tied to the real class by op gen.resolver) CALLING the model of the shim. "
+    "Their proofs (Proofs/ResolverSound.lean) use the sorter only through three facts, the `toposort_*` theorems: every emitted item "
+    "comes after all its dependencies other than itself; the output has no duplicates and holds every key and nothing but keys and their dependencies; "
+    "it succeeds iff the dependencies (self-loops ignored) are acyclic, CircularDependencyError otherwise. So for an installation with "
+    "the real package: import sufficiency holds if the real `toposort_flatten(data)` has the first two facts, `resolver_succeeds` "
+    "additionally needs the third; neither depends on the order inside one batch (`sorted`). Those three facts are proved for the shim "
+    "and NOT established for the real package by anything here (no theorem, no run); a real package that differs from its documentation "
+    "is outside this check. The same holds for the end-to-end oracle: a layout defect that only shows with the real sorter is invisible."
 )
 TRUSTED = [
     "Python identifier rule = str.isidentifier (XID tables taken from the running interpreter, regenerated each run) and not in keyword.kwlist; NFKC normalisation of identifiers by the Python parser is not modelled",
     "re `\\w`/`\\d` semantics on str patterns (Unicode alnum / Nd) are my reading of CPython's sre; compared through ops names.is_word, names.case(originalCase), names.safe_name",
     "harness/standin_render.py stands for templates/*.jinja2 (jinja2 is not installed); everything else in the end-to-end run is xsdata's own code",
     "ASCII case mapping only: split_words drops every non-ASCII character, proved in Proofs/Names.lean (splitWords_ascii)",
-    "harness/shims/toposort is this framework's re-implementation of toposort_flatten (the real package is not installed): the toposort_* theorems of Props/C07Layout.lean are about the shim's algorithm",
+    "harness/shims/toposort is this framework's re-implementation of toposort_flatten (the real package is not installed): the toposort_* theorems of Props/C07Layout.lean are about the shim's algorithm; module_imports_sufficient / resolver_succeeds are about xsdata's resolver composed with it (what carries over to the real package: LEVEL_NOTE)",
 ]
 ASSUMPTIONS = [
     "Filters run without user substitutions (GeneratorConfig() default); aliases/substitutions are not modelled",
